@@ -562,6 +562,22 @@ fn c01_ops(ctx: &Ctx) -> Collector {
                 col.add(fnd("C01", "panic_tracker_action", &loc, format!("{msg}: receiver {rx:?} range {range} frame {}", hex(&m)), json!({"frame_hex": hex(&m), "receiver": format!("{rx:?}"), "range": format!("{range}")})));
                 planes = Airplanes::new();
             }
+            if k % 4 == 1 {
+                // the same frame once more with the receiver exactly on, or exactly opposite, a
+                // published position (the numerically delicate ends of the distance formula)
+                let pos = planes.iter().filter_map(|(_, s)| s.coords.position).nth((k as usize / 4) % 3);
+                if let (Some(p), Ok(Ok(again))) = (pos, mon::guarded(|| adsb_deku::Frame::from_bytes(&m))) {
+                    let rx2 = if k % 8 == 1 { (p.latitude, p.longitude) } else { (-p.latitude, if p.longitude >= 0.0 { p.longitude - 180.0 } else { p.longitude + 180.0 }) };
+                    col.count("tracker_actions", 1);
+                    let res = mon::guarded(|| {
+                        let _ = planes.action(again, rx2, range);
+                    });
+                    if let Err((loc, msg)) = res {
+                        col.add(fnd("C01", "panic_tracker_action", &loc, format!("{msg}: receiver {rx2:?} (on / opposite a published position) range {range} frame {}", hex(&m)), json!({"frame_hex": hex(&m), "receiver": format!("{rx2:?}"), "range": format!("{range}")})));
+                        planes = Airplanes::new();
+                    }
+                }
+            }
             if k % 64 == 0 {
                 let res = mon::guarded(|| {
                     let keys: Vec<ICAO> = planes.keys().copied().collect();
